@@ -276,6 +276,97 @@ fn raw_pred() -> impl Strategy<Value = RawPred> {
     })
 }
 
+/// A contract as an untrusted party may hand it in: any number of predicates, the first of any size, with a
+/// signature that is genuine, arbitrary bytes, or carries any recovery id.
+#[derive(Clone, Debug, Hash, Serialize, Deserialize)]
+pub struct RawContract {
+    pub nodes: usize,
+    pub edges: usize,
+    /// edge_start of node i: 0 = leaf marker everywhere but node 0, 1 = i, 2 = all zero, 3 = the number of edges
+    pub starts: u8,
+    pub predicates: usize,
+    /// None = genuine signature over the contract
+    pub sig: Option<(Vec<u8>, u8)>,
+    pub salt: u8,
+}
+
+fn oracle_raw_contract(r: &RawContract, obs: &mut Obs) -> Result<(), Violation> {
+    let first = Predicate {
+        nodes: (0..r.nodes)
+            .map(|i| Node {
+                edge_start: match r.starts {
+                    0 => {
+                        if i == 0 {
+                            0
+                        } else {
+                            u16::MAX
+                        }
+                    }
+                    1 => i as u16,
+                    2 => 0,
+                    _ => r.edges as u16,
+                },
+                program_address: ContentAddress([3; 32]),
+            })
+            .collect(),
+        edges: (0..r.edges).map(|i| i as u16).collect(),
+    };
+    let mut predicates = vec![first];
+    for i in 1..r.predicates {
+        predicates.push(Predicate {
+            nodes: vec![Node { edge_start: u16::MAX, program_address: ContentAddress([(i % 251) as u8; 32]) }],
+            edges: vec![],
+        });
+    }
+    predicates.truncate(r.predicates);
+    let contract = essential_types::contract::Contract { predicates, salt: [r.salt; 32] };
+    for p in contract.predicates.iter().take(1) {
+        no_panic("predicate::check", || essential_check::predicate::check(p).is_ok())?;
+        no_panic("content_addr(predicate)", || essential_hash::content_addr(p))?;
+        no_panic("Predicate::encode", || p.encode().map(|i| i.count()).ok())?;
+        no_panic("Predicate::encoded_size", || p.encoded_size())?;
+    }
+    no_panic("check_contract", || essential_check::predicate::check_contract(&contract.predicates).is_ok())?;
+    no_panic("content_addr(contract)", || essential_hash::content_addr(&contract))?;
+    let signature = match &r.sig {
+        None => {
+            let sk = essential_sign::secp256k1::SecretKey::from_slice(&[0x42; 32]).unwrap();
+            let c = contract.clone();
+            no_panic("contract::sign", move || essential_sign::contract::sign(c, &sk).signature)?
+        }
+        Some((bytes, id)) => {
+            let mut b = [0u8; 64];
+            for (d, s) in b.iter_mut().zip(bytes.iter().chain(std::iter::repeat(&0))) {
+                *d = *s;
+            }
+            essential_types::Signature(b, *id)
+        }
+    };
+    let signed = essential_types::contract::SignedContract { contract, signature };
+    let accepted = no_panic("check_signed_contract", || essential_check::predicate::check_signed_contract(&signed).is_ok())?;
+    no_panic("contract::verify", || essential_sign::contract::verify(&signed).is_ok())?;
+    no_panic("contract::recover", || essential_sign::contract::recover(&signed).is_ok())?;
+    let oversize = r.nodes > 1000 || r.edges > 1000 || r.predicates > 100;
+    obs.label(if accepted { "accepted" } else { "rejected" });
+    if oversize {
+        obs.label("oversize");
+    }
+    obs.nontrivial_if(oversize || r.sig.is_some());
+    Ok(())
+}
+
+fn raw_contract() -> impl Strategy<Value = RawContract> {
+    let size = || prop_oneof![3 => 0usize..4, 1 => Just(999usize), 2 => Just(1000usize), 3 => Just(1001usize), 1 => Just(1002usize), 1 => 1003usize..70_000, 1 => Just(65_535usize), 1 => Just(65_536usize)];
+    let sig = prop_oneof![
+        3 => Just(None),
+        2 => (proptest::collection::vec(any::<u8>(), 0..65), any::<u8>()).prop_map(Some),
+        1 => (Just(vec![0u8; 64]), 0u8..5).prop_map(Some),
+        1 => (Just(vec![0xffu8; 64]), 0u8..5).prop_map(Some),
+    ];
+    (size(), size(), 0u8..4, prop_oneof![2 => 0usize..4, 1 => Just(99usize), 1 => Just(100usize), 1 => Just(101usize), 1 => 102usize..300], sig, any::<u8>())
+        .prop_map(|(nodes, edges, starts, predicates, sig, salt)| RawContract { nodes, edges, starts, predicates, sig, salt })
+}
+
 /// Whole-checker totality on hostile cases (cyclic / dangling / malformed graphs, invalid data outputs,
 /// enormous read counts, unvalidated sets): any result, no panic / abort / hang.
 fn oracle_hostile(case: &GraphCase, obs: &mut Obs) -> Result<(), Violation> {
@@ -301,7 +392,7 @@ fn oracle_hostile(case: &GraphCase, obs: &mut Obs) -> Result<(), Violation> {
 pub fn property() -> Property {
     Property {
         id: "C06",
-        rule: "bounded-exhaustive: every word string of length <= 4 (thorough <= 6) over {-1,0,1,2,3,5,i64::MAX} for decode_mutation / decode_mutations, every byte string of length <= 4 over {0,1,2,3,0xff} for Predicate::decode; generated: word strings up to 64 words and mutated/truncated valid lists, predicate byte strings with plausible headers (counts 0..3, 1000, 1001, 65535) and bodies of the right length +-3, arbitrary Predicate values (node_edges for every index 0..n+1, predicate::check, check_contract, content_addr, encode), and whole-checker cases: 30% corrupted graphs (cycles, self loops, out-of-range and decreasing edge_start), 15% dangling targets, data-output memories that are arbitrary word strings ([1,1,5], [i64::MAX], [2^40], negative lengths), pre/post reads with counts {i64::MAX, 2^40, 5121, 5120, -1, i64::MIN}, slot collisions, through all three entry modes, in a supervised child process. Oracle: a result or typed error, never a panic / abort / hang; decoders additionally agree with the strict reference decoder whenever the input is canonical and never return something that is not in the input. Non-trivial = the input reaches past the first length check (decoders) or a graph with >= 2 nodes is checked (checker).",
+        rule: "bounded-exhaustive: every word string of length <= 4 (thorough <= 6) over {-1,0,1,2,3,5,i64::MAX} for decode_mutation / decode_mutations, every byte string of length <= 4 over {0,1,2,3,0xff} for Predicate::decode; generated: word strings up to 64 words and mutated/truncated valid lists, predicate byte strings with plausible headers (counts 0..3, 1000, 1001, 65535) and bodies of the right length +-3, arbitrary Predicate values (node_edges for every index 0..n+1, predicate::check, check_contract, content_addr, encode), contracts of 0..300 predicates whose first predicate has {0..3, 999..1002, 65535, 65536, random up to 70000} nodes / edges with genuine, arbitrary or out-of-range signatures through predicate::check, check_contract, check_signed_contract, content_addr, Predicate::encode/encoded_size and the sign crate's sign / verify / recover, and whole-checker cases: 30% corrupted graphs (cycles, self loops, out-of-range and decreasing edge_start), 15% dangling targets, data-output memories that are arbitrary word strings ([1,1,5], [i64::MAX], [2^40], negative lengths), pre/post reads with counts {i64::MAX, 2^40, 5121, 5120, -1, i64::MIN}, slot collisions, through all three entry modes, in a supervised child process. Oracle: a result or typed error, never a panic / abort / hang; decoders additionally agree with the strict reference decoder whenever the input is canonical and never return something that is not in the input. Non-trivial = the input reaches past the first length check (decoders) or a graph with >= 2 nodes is checked (checker).",
         assumptions: vec![
             "every referenced predicate/program exists in the getters and check_set ran first (documented preconditions)",
             "node programs terminate by construction (the checker runs them with unlimited gas)",
@@ -313,6 +404,7 @@ pub fn property() -> Property {
             enum_sub("dec.predicate_bytes_exhaustive", pred_bytes_exhaustive, oracle_pred_bytes).may_abort(),
             prop_sub("dec.predicate_bytes", 9_000, 100_000, |_| pred_bytes(), oracle_pred_bytes).may_abort(),
             prop_sub("dec.raw_predicates", 60_000, 800_000, |_| raw_pred(), oracle_raw_pred).may_abort(),
+            prop_sub("chk.contracts_hostile", 6_000, 120_000, |_| raw_contract(), oracle_raw_contract).may_abort(),
             prop_sub(
                 "chk.pipeline_hostile",
                 75_000,
